@@ -217,8 +217,9 @@ def robust_map(judge_fn, jobs, chunk=512):
     return res
 
 
-def run_with(ctx, judge_fn, rule_tail, anchored=True):
+def run_with(ctx, judge_fn, rule_tail, anchored=True, extra_jobs=()):
     specs, jobs = plan(ctx.tier, anchored)
+    jobs = list(jobs) + list(extra_jobs)
     if ctx.seed:
         r = ctx.seed % len(jobs)
         jobs = jobs[r:] + jobs[:r]
